@@ -3,6 +3,8 @@ use crate::push::instructions::InstructionCache;
 use crate::push::item::{Item, PushType};
 use crate::push::state::PushState;
 use crate::push::state::*;
+#[cfg(feature = "verif")]
+use crate::push::verif_seam::rand_shim as rand;
 use rand::Rng;
 use std::collections::HashMap;
 
